@@ -97,6 +97,17 @@ func concScenarios() []concScen {
 		out = append(out, concScen{"sweep‖Set;Set(same key)", e, []string{"set 1", "set 2"}, [][]string{{fmt.Sprintf("adv %d", 3*tickNs), "cleanup"}, {"set 1", "set 1"}}, "native"})
 		out = append(out, concScen{"evict‖Set;Set(same key)", CacheCfg{MaxSize: 1, Executor: "caller"}, []string{"set 1"}, [][]string{{"set 2"}, {"set 1", "set 1"}}, "native"})
 	}
+	// a load that is superseded by an explicit write and then reports not-found: the written entry stays, known to the
+	// policies, and is not reported
+	for _, w := range []string{"set 1", "cw 1", "sia 1"} {
+		out = append(out, concScen{"missLoad(nf)‖" + w, CacheCfg{MaxSize: 3, Executor: "caller"}, []string{"set 2"}, [][]string{{"load 1 nf"}, {w}}, "native"})
+		out = append(out, concScen{"missLoad(nf)‖" + w + "(expiring)", CacheCfg{Expiry: "writing", TTL: 1000, Executor: "caller", ClockStart: 1 << 40}, []string{"set 2"}, [][]string{{"load 1 nf"}, {w}}, "native"})
+	}
+	{
+		ref := CacheCfg{MaxSize: 3, Refresh: "writing", RefreshTTL: 40, Executor: "caller", ClockStart: 1 << 40}
+		out = append(out, concScen{"refresh(nf)‖set 1", ref, []string{"set 1", "set 2"}, [][]string{{"refresh 1 nf"}, {"set 1"}}, "native"})
+		out = append(out, concScen{"bulk(partial)‖set 2", CacheCfg{MaxSize: 3, Executor: "caller"}, []string{"set 3"}, [][]string{{"bulk 1,2 partial"}, {"set 2"}}, "native"})
+	}
 	// S6 load install || eviction
 	out = append(out, concScen{"load‖insert-evict/caller", CacheCfg{MaxSize: 2, Executor: "caller"}, two, [][]string{{"load 3"}, {"set 4"}}, "native"})
 	return out
@@ -187,6 +198,20 @@ func tripleCore(threads [][]string) bool {
 	return true
 }
 
+// seqPairCore: the two-against-one scenarios that get two preemptions in the thorough tier (216 of 900).
+func seqPairCore(threads [][]string) bool {
+	for _, t := range threads {
+		for _, o := range t {
+			switch o {
+			case "set 1", "inv 1", "cw 1", "set 3", "invall", "load 3 val":
+			default:
+				return false
+			}
+		}
+	}
+	return true
+}
+
 func seqPairScenarios(thorough bool) []concScen {
 	ops := []string{"set 1", "inv 1", "cw 1", "sia 1", "set 3", "get 1", "invall", "ci 1", "setmax 1", "load 3 val"}
 	cfgs := []CacheCfg{{MaxSize: 2, Executor: "caller"}}
@@ -230,7 +255,7 @@ func concPlan(oracles []string, pbQuick, pbThorough int, post ...string) func(th
 		for _, s := range seqPairScenarios(thorough) {
 			p := concParams{Label: s.label, Cfg: s.cfg, Setup: s.setup, Threads: s.threads, Oracles: oracles, Post: post}
 			ppb := 1
-			if thorough {
+			if thorough && s.cfg.Executor == "caller" && s.cfg.Expiry == "" && seqPairCore(s.threads) {
 				ppb = 2
 			}
 			jobs = append(jobs, &Job{Scenario: "cache.conc", Params: js(p), Variant: s.variant, PB: ppb, Shards: 1, BudgetS: 120})
